@@ -258,6 +258,40 @@ theorem slice_select_total (a b c : Option Int) (hc : c.getD 1 ≠ 0) (len : Nat
   obtain ⟨l, hl⟩ := this
   exact ⟨l, by simp [Sel.resolve, hl], sliceIndices_in_range a b c len l hl⟩
 
+/-! ### PROPERTY: the lists an operation was applied to behave afterwards exactly as before (heap level) -/
+
+/-- one operation never writes an existing list object: every cell that existed keeps its contents -/
+theorem hstep_frame (h : Heap) (op : HOp) (a : Nat) (ha : a < h.length) : (hstep h op)[a]? = h[a]? := by
+  unfold hstep
+  cases opValue h op with
+  | error e => rfl
+  | ok ts => simp [List.getElem?_append_left ha]
+
+theorem hstep_length_le (h : Heap) (op : HOp) : h.length ≤ (hstep h op).length := by
+  unfold hstep
+  cases opValue h op <;> simp
+
+/-- … and neither does any finite sequence of operations, whatever aliasing the operands have
+(the same list used twice, results fed back as operands, refused operations in between) -/
+theorem hrun_frame (ops : List HOp) (h : Heap) (a : Nat) (ha : a < h.length) : (hrun h ops)[a]? = h[a]? := by
+  induction ops generalizing h with
+  | nil => rfl
+  | cons op ops ih =>
+    have hl := hstep_length_le h op
+    simp only [hrun, List.foldl_cons] at ih ⊢
+    rw [ih (hstep h op) (by omega), hstep_frame h op a ha]
+
+/-- a successful operation allocates exactly one new list holding the value-level result -/
+theorem hstep_result (h : Heap) (op : HOp) (ts : List LThunk) (hv : opValue h op = .ok ts) :
+    hstep h op = h ++ [ts] ∧ (hstep h op)[h.length]? = some ts := by
+  unfold hstep; rw [hv]; simp
+
+/-- reading any element of an operand after any later operations gives the same value and the same
+evaluation log as before them -/
+theorem read_after_ops_unchanged (e : Env) (ops : List HOp) (h : Heap) (a : Nat) (ha : a < h.length) (j : Nat) :
+    ((hrun h ops)[a]?.bind (·[j]?)).map (LThunk.evalLog e) = (h[a]?.bind (·[j]?)).map (LThunk.evalLog e) := by
+  rw [hrun_frame ops h a ha]
+
 /-! ### non-vacuity: concrete programs exercising every constructor and both error kinds -/
 
 def env0 : Env := { baseVal := fun b i => 100 * b + i, fn := fun f v => (f + 2) * v + 1 }
@@ -271,5 +305,10 @@ example : (Prog.select (.slice none none (some 0)) (.base 0 3)).lazy = .error .v
 example : (Prog.select (.ints [3]) (.base 0 3)).lazy = .error .index := by rfl
 example : (Prog.mapEach [1] (.base 0 3)).lazy = .error .value := by rfl
 example : prog0.getInt env0 (-3) = .ok (205, [.acc 1 2, .call 0 102]) := by rfl
+example : hrun [] [.base 0 2, .map 1 0, .add 0 1, .rep 2 0, .select (.ints [5]) 0, .copy 2]
+    = [[.base 0 0, .base 0 1], [.app 1 (.base 0 0), .app 1 (.base 0 1)],
+       [.base 0 0, .base 0 1, .app 1 (.base 0 0), .app 1 (.base 0 1)],
+       [.base 0 0, .base 0 0, .base 0 1, .base 0 1],
+       [.base 0 0, .base 0 1, .app 1 (.base 0 0), .app 1 (.base 0 1)]] := by rfl
 
 end MenpoModel.LazyList
